@@ -1204,7 +1204,8 @@ impl TcpConnecter {
   ) -> Result<bool, ()> {
     if delay.is_zero() {
       match system_event_rx.try_recv() {
-        Ok(SystemEvent::ContextTerminating) | Ok(SystemEvent::SocketClosing { .. }) => {
+        Ok(SystemEvent::ContextTerminating) => return Ok(false),
+        Ok(SystemEvent::SocketClosing { socket_id: s_id }) if s_id == self.parent_socket_id => {
           return Ok(false);
         }
         _ => return Ok(true),
@@ -1217,17 +1218,22 @@ impl TcpConnecter {
         interval: delay,
       });
     }
-    tokio::select! {
-      biased;
-      event_res = system_event_rx.recv() => {
-        match event_res {
-          Ok(SystemEvent::ContextTerminating) => Ok(false),
-          Ok(SystemEvent::SocketClosing { socket_id: s_id }) if s_id == self.parent_socket_id => Ok(false),
-          Err(_) => Ok(false),
-          Ok(_) => Ok(true),
+    // Events that concern other actors must not cut the delay short.
+    let sleep = tokio::time::sleep(delay);
+    tokio::pin!(sleep);
+    loop {
+      tokio::select! {
+        biased;
+        event_res = system_event_rx.recv() => {
+          match event_res {
+            Ok(SystemEvent::ContextTerminating) => return Ok(false),
+            Ok(SystemEvent::SocketClosing { socket_id: s_id }) if s_id == self.parent_socket_id => return Ok(false),
+            Err(_) => return Ok(false),
+            Ok(_) => continue,
+          }
         }
+        _ = &mut sleep => return Ok(true),
       }
-      _ = tokio::time::sleep(delay) => Ok(true),
     }
   }
 }
